@@ -56,21 +56,34 @@ def check(case, stats):
     def observe(sim):
         """Snapshot + every inspection result, taken on a deep copy so that `sim` itself is not touched."""
         c = copy.deepcopy(sim)
+        g0 = snap.global_fingerprint()
         out = {"snapshot": snapshot(c)}
         for nm in names:
             out[nm] = call(c, nm)
+        g1 = snap.global_fingerprint()
+        if g1 != g0:
+            # data shared by all simulations of the process (class attributes, module globals) belongs to "later results":
+            # twins cannot see such a change (both are affected), the fingerprint around the queries can
+            raise Violation("inspection-changed-shared-state", case, f"after {n} steps, calling the inspection functions on a copy changed "
+                            f"process-wide data: {snap.fingerprint_diff(g0, g1)[:4]}")
         return out
 
     ob = observe(b)
     while n < case.get("max", 120):
         calls = sched[n % len(sched)] if sched else []
         max_between = max(max_between, len(calls))
+        g0 = snap.global_fingerprint() if calls else None
         for idx in calls:
             try:
                 call(a, names[idx % len(names)])
             except Exception as ex:
                 raise Violation("inspection-raises", case, f"{names[idx % len(names)]} before step {n + 1}: {type(ex).__name__}: {ex}")
         called = [names[i % len(names)] for i in calls]
+        if calls:
+            # state shared by all simulations of the process (class attributes, module globals) is part of "later results"
+            g1 = snap.global_fingerprint()
+            if g1 != g0:
+                raise Violation("inspection-changed-shared-state", case, f"before step {n + 1}, calling {called} changed process-wide data: {snap.fingerprint_diff(g0, g1)[:4]}")
         if calls:
             # the inspected twin must still look exactly like the untouched one (state and every inspection result)
             oa = observe(a)
